@@ -131,12 +131,12 @@ class _LinkIterSpy:
         self.orig = L.link_iter
         spy = self
 
-        def link_iter(coords_iter, search_range, **kw):
+        def link_iter(coords_iter, *args, **kw):
             def tee():
                 for t, c in coords_iter:
                     spy.levels.append((t, np.array(c, dtype=float, copy=True)))
                     yield t, c
-            for t, ids in spy.orig(tee(), search_range, **kw):
+            for t, ids in spy.orig(tee(), *args, **kw):
                 spy.ids.append([int(i) for i in ids])
                 yield t, ids
         L.link_iter = link_iter
